@@ -150,7 +150,8 @@ def gen_expand(tier, rng):
     out = []
     # ---- IPv4: every prefix length x boundary addresses (+ random), every spelling
     for ln in range(33):
-        addrs = list(V4_ADDRS) + [rng.randrange(1 << 32) for _ in range(4 if quick else 40)]
+        addrs = (rng.sample(V4_ADDRS, 7) if quick and ln % 8 not in (0, 1, 7) else list(V4_ADDRS)) \
+            + [rng.randrange(1 << 32) for _ in range(2 if quick else 40)]
         for a in addrs:
             out.append(case4(a, ln, "prefix", rng))
         for st in ("zeroprefix", "netmask", "hostmask"):
@@ -161,11 +162,12 @@ def gen_expand(tier, rng):
     # ---- IPv6: every prefix length x zero-run placements
     temps = zero_run_templates()
     for ln in range(129):
-        ts = rng.sample(temps, 3) if quick else temps
-        for g in ts + [[0] * 8, [0xFFFF] * 8, [0x2001, 0xdb8, 0, 0, 0, 0, 0, 0]]:
+        ts = rng.sample(temps, 2) if quick else temps
+        fixed = [[0] * 8, [0xFFFF] * 8, [0x2001, 0xdb8, 0, 0, 0, 0, 0, 0]]
+        for g in ts + (rng.sample(fixed, 1) if quick else fixed):
             out.append(case6(g2a(g), ln, "canon", rng))
         for st in ("upper", "full", "plain", "v4tail", "zeros"):
-            if quick and rng.random() < 0.7: continue
+            if quick and rng.random() < 0.75: continue
             out.append(case6(g2a(rng.choice(temps)), ln, st, rng))
         for _ in range(1 if quick else 6):
             out.append(case6(rng.randrange(1 << 128), ln, "canon", rng))
@@ -192,7 +194,7 @@ def gen_expand(tier, rng):
         out.append({"s": f"{ipaddress.IPv6Address(a)}/{ln}", "exp": "invalid"})
     # ---- texts of unknown validity: mutations of valid texts and random strings
     base = [c["s"] for c in out if isinstance(c.get("exp"), dict)]
-    for _ in range(400 if quick else 6000):
+    for _ in range(300 if quick else 6000):
         s = mutate_text(rng.choice(base), rng)
         if rng.random() < 0.3: s = mutate_text(s, rng)
         out.append({"s": s, "exp": None})
@@ -266,12 +268,12 @@ def gen_native(tier, rng):
     QUICK[0] = quick
     out = []
     for ln in range(33):
-        for a in rng.sample(V4_ADDRS, 2 if quick else 8) + [rng.randrange(1 << 32)]:
+        for a in rng.sample(V4_ADDRS, 1 if quick else 8) + [rng.randrange(1 << 32)]:
             c = case4(a, ln, rng.choice(["prefix", "prefix", "netmask", "zeroprefix"]), rng)
             out.append({"s": c["s"], "net": c["exp"]})
     temps = zero_run_templates()
     for ln in range(129):
-        for g in rng.sample(temps, 2 if quick else 10):
+        for g in rng.sample(temps, 1 if quick and ln % 4 else 2 if quick else 10):
             c = case6(g2a(g), ln, rng.choice(["canon", "canon", "upper", "full", "v4tail"]), rng)
             out.append({"s": c["s"], "net": c["exp"]})
         if ln % 8 == 0:
@@ -310,15 +312,16 @@ def mutate_native(c, rng):
 def gen_print6(tier, rng):
     out = set()
     for m in range(256):
-        for style in ([0xFFFF], [1], [0xab00], [0xf, 0x10, 0x100, 0x1000, 0xfff]):
+        for style in ([[0xFFFF], [0xf, 0x10, 0x100, 0x1000, 0xfff]] if tier == "quick" else
+                      [[0xFFFF], [1], [0xab00], [0xf, 0x10, 0x100, 0x1000, 0xfff]]):
             g = [rng.choice(style) if (m >> k) & 1 else 0 for k in range(8)]
             out.add(g2a(g))
     for ln in range(129):
         out.add(mask(128, ln)); out.add(M128 ^ mask(128, ln)); out.add(1 << (128 - ln) if ln else 0)
-        for g in zero_run_templates()[:: (5 if tier == "quick" else 1)]:
+        for g in zero_run_templates()[:: (13 if tier == "quick" else 1)]:
             a = g2a(g) & mask(128, ln)
             out.add(a); out.add(a | (M128 ^ mask(128, ln)))
-    for _ in range(300 if tier == "quick" else 5000):
+    for _ in range(150 if tier == "quick" else 5000):
         out.add(rng.randrange(1 << 128))
         out.add(g2a([rng.choice([0, 0, 1, 0xffff, rng.randrange(65536)]) for _ in range(8)]))
     return [{"a": str(a)} for a in sorted(out)]
@@ -332,10 +335,10 @@ PROPERTY = Property(
     pid="C18", props_file="Props/C18.v",
     suites=[
         Suite("expand", gen_expand, "run_expand", REQ, "judge_expand", expand_to_coq, known=known_expand,
-              mutate=mutate_expand, stratum=stratum_expand, shard=150),
+              mutate=mutate_expand, stratum=stratum_expand, shard=400),
         Suite("native", gen_native, "run_native", REQ, "judge_native", native_to_coq, known=known_native,
-              mutate=mutate_native, shard=150),
-        Suite("print6", gen_print6, "run_print6", REQ, "judge_print6", print6_to_coq, shard=400),
+              mutate=mutate_native, shard=200),
+        Suite("print6", gen_print6, "run_print6", REQ, "judge_print6", print6_to_coq, shard=600),
     ],
     rule="IPv4: all prefix lengths 0..32 x 15 boundary addresses + random, spelled with prefix length, zero-padded length, "
          "netmask, host mask and bare; exactness decided on integer ranges. IPv6: all prefix lengths 0..128 x zero runs at "
